@@ -9,7 +9,13 @@
        tpl <text>                    mqtt topic template                 (default "rotonda/{id}")
        qos <0|1|2>                                                       (default 2)
      history ops
-       ing <f1> .. <f8>              register an ingress with this info (fields as in C14, '-' = unset)
+       ing <f1> .. <f8>              Register::register() + update_info(id, info): a new ingress with this info
+                                     (fields as in C14: unit parent addr asn rib file name desc, '-' = unset)
+       reg                           Register::register() only: an ingress id that has no entry (yet)
+       G <ing> <f1> .. <f8>          Register::update_info(id, info) on an existing id: the fields set are merged
+                                     into its entry ('-' = leave the field as it is); first entry if it has none
+       R <text> <0|1|2>              mqtt only: Reconfigure with this topic template and QoS (same client), sent
+                                     once everything emitted so far has been published
        O <msg>*                      Update::OutputStream
        S <route> | B <route>* | W <ing> [af] | WB <ing>* | Q | U <ing>    the other Update kinds
      <msg>   p|c|a|o:<route>:<ing>              prefix/community/asn/origin message (name "mqtt", fixed topic)
@@ -20,7 +26,8 @@
              attrs: 0 | '+'-separated o<k> p<asn>-.. n<k> m<k> l<k> t c<u32>-.. e<hi>_<lo>-.. x<flags>-<type>-<bytes>
              (in this order; e and x are what the csv serializer rejects)
      <text>  code points separated by '.', 'e' = empty string
-     <ing>   '-' | k  (k-th registered ingress; unregistered if there are fewer)
+     <ing>   '-' | k  (the id the k-th `ing`/`reg` op so far handed out; an id nobody handed out if there are fewer.
+             Resolved where the op stands: a message before the k-th registration does not refer to it.)
    Observation, file-out: one token per physical line of the file
      R- | R<4|6>,<idx>,<len>,<attrs> | D<ip>,<asn> | U<id>,<value> | E<10 fields>:<text|-> | T<text>
    then end:ok. mqtt-out: per publication `P t=<text> q<qos> i=<info|-> <record token>`, then end:ok. *)
@@ -125,7 +132,8 @@ let run_case (line : string) : string =
     | ["fmt"; "csv"] -> fmt := FCsv
     | "fmt" :: _ -> failwith "bad format"
     | ("end" | "name" | "tpl" | "qos") :: _ -> ()
-    | "ing" :: _ -> incr nreg
+    | "ing" :: _ | ["reg"] -> incr nreg
+    | "G" :: _ -> ()   (* file-out never reads the register: the model of the file has no register at all *)
     | toks -> (match update_of !nreg toks with Some u -> us := u :: !us | None -> failwith ("bad op: " ^ s)))
     (split_on ';' line);
   let us = Stdlib.List.rev !us in
